@@ -353,7 +353,10 @@ class Message:
       else:
          ret += 4  # num_bufs(4)
          for item in fieldContents:
-            ret += 4+len(item)
+            if isinstance(item, str):
+               ret += 4+len(item.encode())+1  # Flatten() writes str items as string_length(4), string(n), NUL(1)
+            else:
+               ret += 4+len(item)
       return ret
 
    def PutString(self, fieldName, fieldContents):
